@@ -1,6 +1,7 @@
 import sys
 from typing import Any
 
+from xsdata.codegen.exceptions import CodegenError
 from xsdata.codegen.mappers.mixins import RawDocumentMapper
 from xsdata.codegen.models import AttrType, Class
 from xsdata.codegen.utils import ClassUtils
@@ -42,6 +43,9 @@ class DictMapper(RawDocumentMapper):
         target = Class(qname=name, tag=Tag.ELEMENT, location="")
 
         for key, value in data.items():
+            if not key:
+                raise CodegenError("Json keys can not be empty", name=name)
+
             cls.build_class_attribute(target, key, value)
 
         return target
